@@ -845,8 +845,20 @@ func clip(s string) string {
 	return s
 }
 
-// Show renders a Go value compactly for reports.
-func Show(v reflect.Value) string {
+// Show renders a Go value compactly for reports; it never panics (a corrupted value is reported as such).
+func Show(v reflect.Value) (out string) {
+	defer func() {
+		if r := recover(); r != nil {
+			out = fmt.Sprintf("<value cannot be rendered: %v>", r)
+		}
+	}()
+	if !v.IsValid() {
+		return "<invalid>"
+	}
+	return show(v)
+}
+
+func show(v reflect.Value) string {
 	v = Accessible(v)
 	t := v.Type()
 	switch {
